@@ -545,6 +545,9 @@ def _closure_dnf(crate, key):
 
 
 _HRA = {}
+# deep mode (set by resalg.cases(.., deep=True)): public inherent fns of the crate are read by their
+# definition too when their result is looked into
+DEEP = False
 
 
 def _helper_result_alternatives(crate, a):
@@ -556,13 +559,13 @@ def _helper_result_alternatives(crate, a):
     inner = e[2][0]
     if inner[0] != "call" or not isinstance(inner[1], str) or not (inner[1].startswith("darling_core::") or inner[1].startswith("<darling_core::")):
         return None
-    key = (id(crate), repr(inner), v)
+    key = (id(crate), repr(inner), v, DEEP)
     if key in _HRA:
         return _HRA[key]
     _HRA[key] = None
     from . import resalg as _ra
     try:
-        rows = _ra.Algebra(crate).inline_private(inner[1], inner[2], inner[3] if len(inner) > 3 else ())
+        rows = _ra.Algebra(crate).inline_private(inner[1], inner[2], inner[3] if len(inner) > 3 else (), any_vis=DEEP)
     except RuntimeError:
         rows = None
     if not rows or len(rows) > 6:
@@ -1248,9 +1251,37 @@ def predicate_dnf(crate, name, any_vis=False):
     return res
 
 
+def _helper_variant_alternatives(crate, a):
+    """`discr(helper(x)) = V` for a loop-free helper of the crate whose every return is a visible
+    constructor: the conditions of the cases that build variant V"""
+    e, v = a
+    if e[0] != "discr" or e[1][0] != "call" or not isinstance(e[1][1], str) or not (e[1][1].startswith("darling_core::") or e[1][1].startswith("<darling_core::")):
+        return None
+    from . import resalg as _ra
+    inner = e[1]
+    try:
+        rows = _ra.Algebra(crate).inline_private(inner[1], inner[2], inner[3] if len(inner) > 3 else (), any_vis=DEEP)
+    except RuntimeError:
+        return None
+    if not rows or len(rows) > 8 or not all(hv[0] == "agg" and "::" in str(hv[1]) for _, hv in rows):
+        return None
+    out = []
+    for conds, hv in rows:
+        var = str(hv[1]).rsplit("::", 1)[-1]
+        if isinstance(v, tuple) and v and v[0] == "not-in":
+            hit = var not in v[1]
+        else:
+            hit = var == v
+        if hit:
+            out.append(tuple((x, y) for (x, y) in conds if x[0] not in ("pc-of", "effect")))
+    return out or None
+
+
 def predicate_alternatives(crate, a, any_vis=False):
     """alternatives (tuples of atoms) for atom `pred(args)=bool` when pred has a DNF summary"""
     e, v = a
+    if e[0] == "discr":
+        return _helper_variant_alternatives(crate, a)
     if e[0] != "call" or isinstance(e[1], tuple) or not isinstance(v, bool):
         return None
     comb = _option_combinator_alternatives(crate, a)
@@ -1259,6 +1290,10 @@ def predicate_alternatives(crate, a, any_vis=False):
     comb = _helper_result_alternatives(crate, a)
     if comb is not None:
         return comb
+    # a predicate applied to something that can be looked into (the result of a crate fn, a visible
+    # constructor) is read by its definition whatever its visibility
+    if DEEP and not any_vis and e[2] and any(isinstance(x, tuple) and x and (x[0] == "agg" or (x[0] == "call" and isinstance(x[1], str) and "darling_core::" in x[1][:16])) for x in e[2]):
+        any_vis = True
     summ = predicate_dnf(crate, e[1], any_vis)
     if summ is None or summ[0] != len(e[2]):
         return None
